@@ -461,10 +461,14 @@ func (obj *Package) Define(creator func(args List) Object, doc *FuncDoc, aux ...
 		Warn("redefining %s", printer.caseName(name))
 	}
 	obj.funcs[name] = &fi
-	for _, pkg := range obj.Users {
-		pkg.mu.Lock()
-		pkg.funcs[name] = &fi
-		pkg.mu.Unlock()
+	if fi.Export {
+		for _, pkg := range obj.Users {
+			pkg.mu.Lock()
+			if xf := pkg.funcs[name]; xf == nil || xf.Pkg == obj {
+				pkg.funcs[name] = &fi
+			}
+			pkg.mu.Unlock()
+		}
 	}
 	obj.mu.Unlock()
 	for _, h := range defunHooks {
